@@ -170,12 +170,16 @@ Definition run_crash (x : sx) : sx :=
     let d := run_effects (pre_state o old) (firstn (Z.to_nat (sx_int (sx_nth 5 x))) es) in
     let '(g1, d1) := recover d SEntry in
     let '(g2, _) := recover d1 SNew in
-    (* (rewrite of the access log) the entry's last use as a restarted limiter reads it from the rewritten log: the one
-       the operation flushed - the rewrite drops old lines from the top, never the records it has just appended *)
+    (* (rewrite of the access log) the entry's last use as a restarted limiter reads it from the log: the old line's until
+       the new records are appended, theirs from then on - also through the rewrite, which drops old lines from the top and
+       never the records it has just appended - and none in the instant between the removal of the log and the rename of
+       its rewritten copy *)
+    let k := Z.to_nat (sx_int (sx_nth 5 x)) in
     let last_use := match o with
                     | OAtimesRewrite _ _ =>
-                      (* compared for the run that is not killed (no syscall named): the rewrite keeps the new records *)
-                      if nonempty (sx_str (sx_nth 2 x)) then -1 else sx_int (sx_nth 1 (sx_nth 7 x))
+                      if Nat.eqb k 0 then sx_int (sx_nth 0 (sx_nth 7 x))
+                      else if Nat.eqb k 4 then 0
+                      else sx_int (sx_nth 1 (sx_nth 7 x))
                     | _ => -1
                     end in
     L [L (map enc_effect es); L [enc_got g1; enc_got g2; heal g1; heal g2; I last_use]]
